@@ -1188,15 +1188,112 @@ func run(ctx *Ctx) *Result {
 			}
 			mechanism := "other"
 			switch {
+			case len(lo) == 0:
+				mechanism = "no_leftover"
 			case allUnrefInitially && strings.Contains(firstF["hits"], "grp:found-on-device"):
 				mechanism = "unused_device_group_adopted_then_renamed"
 			case allLostRefInScript && strings.Contains(firstF["hits"], "line:changed-ref"):
 				mechanism = "group_equalised_for_a_line_that_is_then_replaced"
+			case allLostRefInScript && strings.Contains(firstF["hits"], "grp:found-on-device"):
+				// F-C01d: the left-over WAS referenced: findGroupOnDevice adopts it for an inserted line, a kept line with its twin
+				// re-maps the target group, the inserted line is printed with the twin and the old line of the adopted group is deleted
+				mechanism = "referenced_device_group_adopted_for_inserted_line_then_renamed_and_its_line_deleted"
+			}
+			// the second script, classified from its text and the device it is computed for (`final`): besides the removal of
+			// exactly the left-over groups it may re-point lines from one group to its TWIN (identical members in `final`): each added
+			// line has a deleted partner in the same access list that differs only in that group name (F-C01e)
+			twin := func(g, h string) bool {
+				_, ok1 := final.Groups[g]
+				_, ok2 := final.Groups[h]
+				return ok1 && ok2 && g != h && sortedMembers(final, g) == sortedMembers(final, h)
+			}
+			class2 := "other"
+			if onlyDeletes {
+				class2 = "only_deletes_leftovers"
+			} else if strings.TrimSpace(out2) != "" {
+				var adds, dels [][]string // name, body
+				okShape := true
+				var grpDel []string
+				for _, l := range splitScript(out2) {
+					if g, ok := strings.CutPrefix(l, "no object-group network "); ok {
+						grpDel = append(grpDel, g)
+					} else if m := aclCmdRE.FindStringSubmatch(l); m != nil {
+						if m[1] != "" {
+							dels = append(dels, []string{m[2], m[4]})
+						} else {
+							adds = append(adds, []string{m[2], m[4]})
+						}
+					} else {
+						okShape = false
+					}
+				}
+				if strings.Join(sortedCopy(grpDel), ",") != strings.Join(sortedCopy(loGroups), ",") || len(adds) != len(dels) || len(adds) == 0 {
+					okShape = false
+				}
+				used := map[int]bool{}
+				for _, a := range adds {
+					found := false
+					for i, d := range dels {
+						if used[i] || d[0] != a[0] {
+							continue
+						}
+						ra, rd := refsOf(a[1]), refsOf(d[1])
+						if len(ra) != len(rd) {
+							continue
+						}
+						same, nd := true, 0
+						ta, td := a[1], d[1]
+						for k := range ra {
+							if ra[k] != rd[k] {
+								if !twin(ra[k], rd[k]) {
+									same = false
+								}
+								nd++
+								td = strings.Replace(td, "object-group "+rd[k]+" ", "object-group "+ra[k]+" ", 1)
+							}
+						}
+						if same && nd > 0 && (td == ta || stripLog(td) == stripLog(ta)) {
+							used[i], found = true, true
+							break
+						}
+					}
+					if !found {
+						okShape = false
+					}
+				}
+				if okShape {
+					class2 = "deletes_leftovers_and_repoints_lines_between_twin_groups"
+				}
+			}
+			// twins used alternately (A … B … A) by the lines of one access list of `final`: the kept pair with B re-maps the target
+			// group, the next kept pair with A finds it `ready` under another name
+			alternating := false
+			for _, n := range final.AOrder {
+				var seq []string
+				for _, l := range final.ACLs[n] {
+					seq = append(seq, refsOf(l)...)
+				}
+				for i := 0; i < len(seq); i++ {
+					for j := i + 1; j < len(seq); j++ {
+						for k := j + 1; k < len(seq); k++ {
+							if seq[i] == seq[k] && twin(seq[i], seq[j]) {
+								alternating = true
+							}
+						}
+					}
+				}
 			}
 			modelPredicts := f2["iso"] == "0:leftover-group" && modelOnlyGroups
+			if class2 == "deletes_leftovers_and_repoints_lines_between_twin_groups" {
+				// the model (of the unchanged code) prints the same second script and classifies the comparison as outside ISO because
+				// the groups are not paired one to one
+				real2 := strings.Join(strings.Split(strings.TrimSuffix(out2, "\n"), "\n"), "|")
+				modelPredicts = f2["iso"] == "0:group-pairing-not-1:1" && f2["script"] == real2
+			}
 			sigb := func(pred string) map[string]any {
 				return map[string]any{"pred": pred, "leftovers_initial_identical_groups": loInitialIdentical,
-					"second_script_only_deletes_leftovers": onlyDeletes, "model_predicts": modelPredicts, "mechanism": mechanism}
+					"second_script_only_deletes_leftovers": onlyDeletes, "model_predicts": modelPredicts, "mechanism": mechanism,
+					"second_script_class": class2, "twin_groups_used_alternately": alternating}
 			}
 			if len(lo) > 0 {
 				res.Fail(sigb("leftover_generated_object"), "unreferenced generated objects remain: "+strings.Join(lo, ", ")+
@@ -1498,6 +1595,16 @@ func corpus() []cfgCase {
 			"access-list dmz_acl extended permit tcp object-group g2 any4 eq 22\naccess-group inside_in in interface inside\naccess-group dmz_acl in interface dmz\n",
 			"object-group network g0\n network-object host 10.1.1.1\nobject-group network g2\n network-object host 10.4.4.4\n"+
 				"access-list inside_in extended deny udp object-group g0 object-group g2 eq 53\naccess-list inside_in extended permit udp object-group g0 any4 eq 25\naccess-group inside_in in interface inside\n"),
+		// F-C01d: the adopted twin was referenced by the old copy of a moved line
+		mk("interface Ethernet0/0\n nameif outside\nobject-group network g0-DRC-8\n network-object host 10.1.1.2\nobject-group network g0-DRC-0\n network-object host 10.1.1.2\n"+
+			"access-list outside_in extended permit ip object-group g0-DRC-8 10.3.3.0 255.255.255.0\naccess-list outside_in extended permit tcp any4 any4 eq 80\naccess-list outside_in extended permit ip object-group g0-DRC-0 any4\naccess-group outside_in in interface outside\n",
+			"object-group network g0\n network-object host 10.1.1.2\n"+
+				"access-list outside_in extended permit ip object-group g0 any4\naccess-list outside_in extended permit ip object-group g0 10.3.3.0 255.255.255.0\naccess-list outside_in extended permit tcp any4 any4 eq 80\naccess-group outside_in in interface outside\n"),
+		// F-C01e: twin groups used alternately by kept lines (device equivalent to the target, script not empty)
+		mk("interface Ethernet0/0\n nameif dmz\nobject-group network g0\n network-object host 10.4.4.4\nobject-group network g0-DRC-8\n network-object host 10.4.4.4\n"+
+			"access-list dmz_in extended deny tcp host 10.1.1.1 object-group g0 eq 22\naccess-list dmz_in extended deny tcp host 10.1.1.1 object-group g0-DRC-8 eq 443\naccess-list dmz_in extended deny tcp host 10.1.1.1 object-group g0 eq 25\naccess-group dmz_in in interface dmz\n",
+			"object-group network g0\n network-object host 10.4.4.4\n"+
+				"access-list dmz_in extended deny tcp host 10.1.1.1 object-group g0 eq 22\naccess-list dmz_in extended deny tcp host 10.1.1.1 object-group g0 eq 443\naccess-list dmz_in extended deny tcp host 10.1.1.1 object-group g0 eq 25\naccess-group dmz_in in interface dmz\n"),
 		// F-C01b: two identical groups on the device, one left over
 		mk(intf+"object-group network oldg0\n network-object host 10.1.1.1\nobject-group network g0-DRC-7\n network-object host 10.1.1.1\n"+
 			"access-list inside_in extended permit tcp object-group oldg0 any4 eq 22\naccess-group inside_in in interface inside\n",
